@@ -529,7 +529,7 @@ impl TypedOp {
 fn typed_res<T>(r: &tokio_modbus::Result<T>, f: impl Fn(&T) -> String) -> String {
     match r {
         Ok(Ok(v)) => format!("ok {}", f(v)),
-        Ok(Err(e)) => format!("exc {}", hex8((*e).into())),
+        Ok(Err(e)) => format!("exc {}", hex8(crate::wire::ex_num(*e))),
         Err(e) => wire::error(e),
     }
 }
